@@ -45,102 +45,111 @@ def check(pid, tier, seed, replay=None):
                 # equality of float values between the builds is stated for the default precision
                 p["set"].pop("floatPrec", None)
         log("%s: %d programs %.0fs" % (pid, len(progs), time.time() - t0))
-        lines = [json.dumps(p) for p in progs]
-        rj = run_player(pj, sc, "json", lines, shards=NCPU, per_script=False, extra_args=["-bytes"])
-        rb = run_player(pb, sc, "cbor", lines, shards=NCPU, per_script=False)
-        jout = {}
-        for _, rr in rj:
-            for ln in rr[1:]:
-                e = json.loads(ln)
-                jout[e["id"]] = e
-        byid = {p["id"]: p for p in progs}
-        shard_lines = []
-        decs = {}
-        nval = 0
-        import base64
-        for _, rr in rb:
-            outl = [rr[0]]
-            for ln in rr[1:]:
-                e = json.loads(ln)
-                if e["a"] == "Stream":
-                    outl.append(ln)
-                    continue
-                pr = byid[e["id"]]
-                je = jout.get(e["id"], {})
-                e["ikeys"] = cborproj.ikeys(e.get("item"), opaque=set(pr.get("opaque") or ()) | set(pr.get("opaqueel") or ()))
-                e.setdefault("itemerr", "")
-                e.setdefault("heads", [])
-                e.setdefault("decerr", "")
-                e.setdefault("decpanic", "")
-                e.setdefault("dkeys", [])
-                e.setdefault("draw", {"nl": False, "noctl": False, "utf8": False})
-                bad, checked = cborproj.valbad(pr, e.get("item")) if e.get("item") else ([], 0)
-                e["valbad"] = bad
-                nval += checked
-                e["jkeys"] = je.get("ckeys", [])
-                sig = ""
-                if e["nw"] == 1 and je.get("out") and e.get("dec"):
-                    d, sigs = cborproj.jdiff(pr, base64.b64decode(je["out"]), base64.b64decode(e["dec"]))
-                    e["jdiff"] = ["/".join(map(str, x)) for x in d][:5]
-                    if d and sigs and len(sigs) == 1:
-                        sig = "~" + next(iter(sigs))
-                else:
-                    e["jdiff"] = [] if e["nw"] == 0 else ["<missing>"]
-                e["sig"] = sig
-                decs[e["id"]] = (e.get("out"), e.get("dec"))
-                for k in ("item", "out", "dec", "ctokens", "ckeys", "hooks", "levels", "dtokens"):
-                    e.pop(k, None)
-                outl.append(json.dumps(e))
-            shard_lines.append(outl)
-        log("%s: played and projected %.0fs" % (pid, time.time() - t0))
-        from checks.logger import consts
-        res = validate_sharded(sc.dir, "CborTrace", "hist.ndjson", shard_lines, len(shard_lines), "cbor", constants=consts(), also=("logger",))
+        # the programs are run, projected and validated in batches: recordings of a million programs (thorough tier) at once take
+        # tens of GB of memory in this process
+        all_progs = progs
+        BATCH = 120000
+        nprog, nval, other, n386, sample = 0, 0, 0, 0, []
         known = known_signatures(pid)
-        other = 0
-        for ri, k, e, tag in res:
-            tags, _, sig = tag.partition("~")
-            if pid not in tags:
-                other += 1
-                continue
-            if sig and sig in known and pid == "C08" and "C08" in tags:
-                v.known_finding(sig, known[sig]["what"])
-                continue
-            if e["a"] == "Stream":
-                v.violation("a run of %d events (%d bytes) decoded as one stream: %d lines, %d differ from the event decoded alone (first %d) %s" % (e["events"], e["bytes"], e["lines"], e["mismatch"], e["first"], e["decerr"][:80]),
-                            {"property": pid, "kind": "stream", "record": e})
-                continue
-            v.violation("program %s: %s (valbad=%s jdiff=%s decerr=%s)" % (e["id"], tags, e.get("valbad"), e.get("jdiff"), e.get("decerr", "")[:80]),
-                        {"property": pid, "program": byid[e["id"]], "recording": e, "json_build": jout.get(e["id"]),
-                         "binary_out_b64": decs.get(e["id"], (None, None))[0], "decoded_b64": decs.get(e["id"], (None, None))[1]})
-        n386 = 0
-        if pid == "C09" and not replay:
-            # the same programs on a 32-bit build of the binary encoder (GOARCH=386 runs on this kernel): what is written does not depend
-            # on the platform's word size - an int64 stays an int64 whatever `int` is. A sample of the programs whose arguments of the
-            # platform-dependent types int / uint fit in 32 bits; the events must be byte-identical to the 64-bit build's
-            def fits32(x):
-                if isinstance(x, dict):
-                    if x.get("t") in ("int", "uint", "[]int", "[]uint"):
-                        vals = ([x["i"]] if "i" in x else []) + list(x.get("is") or [])
-                        if any(not (-(1 << 31) <= int(v) < (1 << 31)) for v in vals):
-                            return False
-                    return all(fits32(y) for y in x.values())
-                if isinstance(x, list):
-                    return all(fits32(y) for y in x)
-                return True
-            cand = [p for p in progs if fits32(p)]
-            sample = cand[:: max(1, len(cand) // (12000 if thorough else 4000))]
-            pb386 = go_build("./players/logger", sc.path("lp-cbor-386"), overlay=ov, tags="binary_log", goarch="386")
-            r386 = run_player(pb386, sc, "cbor386", [json.dumps(p) for p in sample], shards=NCPU, per_script=False)
-            for _, rr in r386:
+        import base64
+        for b0 in range(0, max(1, len(all_progs)), BATCH):
+            progs = all_progs[b0:b0 + BATCH]
+            lines = [json.dumps(p) for p in progs]
+            rj = run_player(pj, sc, "json", lines, shards=NCPU, per_script=False, extra_args=["-bytes"])
+            rb = run_player(pb, sc, "cbor", lines, shards=NCPU, per_script=False)
+            jout = {}
+            for _, rr in rj:
                 for ln in rr[1:]:
                     e = json.loads(ln)
-                    if e.get("a") == "Stream" or e["id"] not in decs:
+                    jout[e["id"]] = e
+            byid = {p["id"]: p for p in progs}
+            shard_lines = []
+            decs = {}
+            for _, rr in rb:
+                outl = [rr[0]]
+                for ln in rr[1:]:
+                    e = json.loads(ln)
+                    if e["a"] == "Stream":
+                        outl.append(ln)
                         continue
-                    n386 += 1
-                    if e.get("out") != decs[e["id"]][0]:
-                        v.violation("program %s: the 32-bit build of the binary encoder writes other bytes than the 64-bit build (%s / %s)" % (e["id"], (e.get("out") or "")[:60], (decs[e["id"]][0] or "")[:60]),
-                                    {"property": pid, "kind": "386", "program": byid[e["id"]], "out_386_b64": e.get("out"), "out_amd64_b64": decs[e["id"]][0]})
-            log("%s: 32-bit build: %d programs byte-identical check %.0fs" % (pid, n386, time.time() - t0))
+                    pr = byid[e["id"]]
+                    je = jout.get(e["id"], {})
+                    e["ikeys"] = cborproj.ikeys(e.get("item"), opaque=set(pr.get("opaque") or ()) | set(pr.get("opaqueel") or ()))
+                    e.setdefault("itemerr", "")
+                    e.setdefault("heads", [])
+                    e.setdefault("decerr", "")
+                    e.setdefault("decpanic", "")
+                    e.setdefault("dkeys", [])
+                    e.setdefault("draw", {"nl": False, "noctl": False, "utf8": False})
+                    bad, checked = cborproj.valbad(pr, e.get("item")) if e.get("item") else ([], 0)
+                    e["valbad"] = bad
+                    nval += checked
+                    e["jkeys"] = je.get("ckeys", [])
+                    sig = ""
+                    if e["nw"] == 1 and je.get("out") and e.get("dec"):
+                        d, sigs = cborproj.jdiff(pr, base64.b64decode(je["out"]), base64.b64decode(e["dec"]))
+                        e["jdiff"] = ["/".join(map(str, x)) for x in d][:5]
+                        if d and sigs and len(sigs) == 1:
+                            sig = "~" + next(iter(sigs))
+                    else:
+                        e["jdiff"] = [] if e["nw"] == 0 else ["<missing>"]
+                    e["sig"] = sig
+                    decs[e["id"]] = (e.get("out"), e.get("dec"))
+                    for k in ("item", "out", "dec", "ctokens", "ckeys", "hooks", "levels", "dtokens"):
+                        e.pop(k, None)
+                    outl.append(json.dumps(e))
+                shard_lines.append(outl)
+            log("%s: played and projected %.0fs" % (pid, time.time() - t0))
+            from checks.logger import consts
+            res = validate_sharded(sc.dir, "CborTrace", "hist.ndjson", shard_lines, len(shard_lines), "cbor", constants=consts(), also=("logger",))
+            for ri, k, e, tag in res:
+                tags, _, sig = tag.partition("~")
+                if pid not in tags:
+                    other += 1
+                    continue
+                if sig and sig in known and pid == "C08" and "C08" in tags:
+                    v.known_finding(sig, known[sig]["what"])
+                    continue
+                if e["a"] == "Stream":
+                    v.violation("a run of %d events (%d bytes) decoded as one stream: %d lines, %d differ from the event decoded alone (first %d) %s" % (e["events"], e["bytes"], e["lines"], e["mismatch"], e["first"], e["decerr"][:80]),
+                                {"property": pid, "kind": "stream", "record": e})
+                    continue
+                v.violation("program %s: %s (valbad=%s jdiff=%s decerr=%s)" % (e["id"], tags, e.get("valbad"), e.get("jdiff"), e.get("decerr", "")[:80]),
+                            {"property": pid, "program": byid[e["id"]], "recording": e, "json_build": jout.get(e["id"]),
+                             "binary_out_b64": decs.get(e["id"], (None, None))[0], "decoded_b64": decs.get(e["id"], (None, None))[1]})
+            if pid == "C09" and not replay:
+                # the same programs on a 32-bit build of the binary encoder (GOARCH=386 runs on this kernel): what is written does not depend
+                # on the platform's word size - an int64 stays an int64 whatever `int` is. A sample of the programs whose arguments of the
+                # platform-dependent types int / uint fit in 32 bits; the events must be byte-identical to the 64-bit build's
+                def fits32(x):
+                    if isinstance(x, dict):
+                        if x.get("t") in ("int", "uint", "[]int", "[]uint"):
+                            vals = ([x["i"]] if "i" in x else []) + list(x.get("is") or [])
+                            if any(not (-(1 << 31) <= int(v) < (1 << 31)) for v in vals):
+                                return False
+                        return all(fits32(y) for y in x.values())
+                    if isinstance(x, list):
+                        return all(fits32(y) for y in x)
+                    return True
+                cand = [p for p in progs if fits32(p)]
+                sample386 = cand[:: max(1, len(cand) // (2000 if thorough else 4000))]
+                pb386 = go_build("./players/logger", sc.path("lp-cbor-386"), overlay=ov, tags="binary_log", goarch="386")
+                r386 = run_player(pb386, sc, "cbor386", [json.dumps(p) for p in sample386], shards=NCPU, per_script=False)
+                for _, rr in r386:
+                    for ln in rr[1:]:
+                        e = json.loads(ln)
+                        if e.get("a") == "Stream" or e["id"] not in decs:
+                            continue
+                        n386 += 1
+                        if e.get("out") != decs[e["id"]][0]:
+                            v.violation("program %s: the 32-bit build of the binary encoder writes other bytes than the 64-bit build (%s / %s)" % (e["id"], (e.get("out") or "")[:60], (decs[e["id"]][0] or "")[:60]),
+                                        {"property": pid, "kind": "386", "program": byid[e["id"]], "out_386_b64": e.get("out"), "out_amd64_b64": decs[e["id"]][0]})
+                log("%s: 32-bit build: %d programs byte-identical check %.0fs" % (pid, n386, time.time() - t0))
+            nprog += sum(len(x) - 2 for x in shard_lines)
+            if not sample:
+                sample = [json.loads(x[1]) for x in shard_lines[:2] if len(x) > 1]
+            del rj, rb, jout, byid, shard_lines, decs, res, lines
+        progs = all_progs
         esc = {}
         if pid == "C08" and not replay:
             # "text and []byte with the same escaping": the decoder's own copy of the escaping loop against JsonString.tla
@@ -150,8 +159,6 @@ def check(pid, tier, seed, replay=None):
                 v.violation("bundled decoder, %s of %s: wrote %s - not clean / not valid UTF-8 / does not un-escape to the input" % (e["via"], bytes(e["in"]).hex(), e["out"][:60]),
                             {"property": pid, "kind": "escape", "record": e})
             esc = dict(estats, records=en, drift_from_transcription=edrift)
-        nprog = sum(len(x) - 2 for x in shard_lines)
-        sample = [json.loads(x[1]) for x in shard_lines[:2] if len(x) > 1]
         cov = {"states": max(1, stats["distinct"]), "transitions": max(1, stats["generated"]), "traces_validated_against_impl": nprog, "samples": sample,
                "programs_run_under_both_build_tags": nprog, "programs_rerun_on_386_build": n386, "scalar_values_compared_with_arguments": nval, "rejected_for_sibling_property": other,
                "known_findings_matched": {k: n for k, (n, _) in v.known.items()}, "escaping": esc, "exhaustive": False,
